@@ -28,7 +28,7 @@ ivars == <<ds, opt, X, heap, fcache, rcache, nid, returned, last>>
 A  == AllInputs(ds)
 NA == Len(A)
 N  == Len(X.cells)
-Fields == {"obs", "fcst"}
+Fields == FieldsOf(ds)
 NoReq == [fields |-> <<>>, inp |-> 0, axis |-> "no", idx |-> 0]
 
 RawArr(j, f) == [m \in 1..N |-> At(A[j], f, X.cells[m][1], X.cells[m][2], X.cells[m][3])]
@@ -113,7 +113,7 @@ InitImpl(D, O) ==
   /\ ds = D /\ opt = O
   /\ X = LET c == Context(D, O) IN [c EXCEPT !.adj = TLCEval(c.adj), !.pos = TLCEval(c.pos), !.cells = TLCEval(c.cells)]
   /\ heap = <<>> /\ nid = 1
-  /\ fcache = [j \in 1..Len(AllInputs(D)) |-> [f \in Fields |-> 0]]
+  /\ fcache = [j \in 1..Len(AllInputs(D)) |-> [f \in FieldsOf(D) |-> 0]]
   /\ rcache = <<>>
   /\ returned = {}
   /\ last = [req |-> NoReq, ids |-> <<>>, hit |-> FALSE, steps |-> <<>>, inplace |-> FALSE]
